@@ -14,7 +14,7 @@ while args and args[0].startswith("--"):
 def sh(cmd, cwd=None):
     p = subprocess.run(cmd, shell=True, cwd=cwd, capture_output=True, text=True, env=dict(os.environ, VERIF_NO_EVIDENCE="1"))
     return p.returncode, p.stdout + p.stderr
-WT = "/tmp/wtdetect"
+WT = "/tmp/wtdetect-%d" % os.getpid()
 dirs = sorted(d for d in glob.glob("/verif/seeded/*") if os.path.exists(os.path.join(d, "meta.json")))
 if args:
     dirs = [d for d in dirs if any(os.path.basename(d).startswith(a) for a in args)]
